@@ -1904,7 +1904,10 @@ def export_analyses(root: Any, interner: Interner, rid: str) -> dict:
     # -- predecessors, node by node (top name space)
     lp = an.ListOfDirectPredecessorsGetter()
     lpf = an.ListOfDirectPredecessorsGetter(include_functions=True)
-    dp = an.DirectPredecessorsGetter()
+    # ONE DirectPredecessorsGetter per process, asked about the nodes of every graph this
+    # process ever builds (the partitioner keeps such an object, too): graphs come and go,
+    # addresses are recycled, and whatever the getter remembers must not be keyed by them
+    dp = _LONG_LIVED.setdefault("dp", an.DirectPredecessorsGetter())
     preds, predsf, predset = [], [], []
     for k in range(1, fg.n + 1):
         o = fg.objs[k - 1]
@@ -2000,6 +2003,9 @@ def export_analyses(root: Any, interner: Interner, rid: str) -> dict:
 # --------------------------------------------------------------------------
 # 10. deterministic edge-kind witnesses (independent of VERIF_SEED)
 
+_LONG_LIVED: dict[str, Any] = {}
+
+
 def witness_graphs() -> dict[str, Any]:
     """API-built graphs, one per edge kind, in each of which some array is
     reachable ONLY through an edge of that kind (were it also an operand
@@ -2070,6 +2076,11 @@ def witness_graphs() -> dict[str, Any]:
     W["container"] = {"out": d["p"] + d["q"]}
     # several outputs, one of them used by nothing else
     W["entries"] = {"o1": x + y, "o2": pt.roll(y, 1, 0), "o3": ph("lonely")}
+    # UNEQUAL nodes of EQUAL hash (CPython: hash(-1) == hash(-2), and it propagates through
+    # otherwise identical ancestors): each is a node of its own for every analysis
+    W["hash_twins"] = {"stencil": pt.roll(x, -1, 0) + pt.roll(x, -2, 0) + pt.roll(x, 1, 0),
+                       "poly": (y + (-1)) * (y + (-2)),
+                       "deep": pt.sin(pt.roll(x, -1, 1) * 2.0) - pt.sin(pt.roll(x, -2, 1) * 2.0)}
     return {k: pt.make_dict_of_named_arrays(v) for k, v in W.items()}
 
 
